@@ -262,6 +262,7 @@ def step (d : D) (line : String) : D × Option String :=
     match r.toNat?, v.toInt? with
     | some r, some v => if r ≥ d.n then (d, some "bad-op") else finishOp { d with inp := d.inp.setIfInBounds r v } "-"
     | _, _ => (d, some "bad-op")
+  | ["poison"] => (d, none)  -- panic scenario, outside the model; evaluated by checks/c20.py
   | ["abort"] => (d, none)   -- the harness gave up on this case after a hang (already reported)
   | ["join"] =>
     -- end of the script (every thread has been sent `stop` by ordinary `stop r` operations):
